@@ -63,18 +63,18 @@ def edit_campaign(ctx, reports=0.0, analyses=None, sim=True, graph=True, mc=True
             cfg = "MCEdit2.cfg" if q else "MCEditQ.cfg"
             inits, edges, nodes, cnt = tlc.run_dump("MCEdit.tla", cfg, ctx.work)
             gst = drv_edit.replay_graph(rec, inits, edges, nodes, ctx.rng, max_states=None,
-                                        rej_per_state=25 if q else 120)
+                                        rej_per_state=25 if q else 60)
             gst["graph_cfg"] = cfg
             gst["graph_transitions"] = sum(len(v) for v in edges.values())
             res.extra["graph_replay"] = gst
             del edges, nodes
         if sim:
-            num, depth = (250, 14) if q else (2500, 30)
+            num, depth = (250, 14) if q else (1200, 30)
             behs, _ = tlc.run_sim("SimEdit.tla", "SimEdit.cfg", ctx.work, num=num, depth=depth, seed=ctx.seed + 1)
             n = drv_edit.replay_sim(rec, behs, analyses=analyses)
             res.extra["sim_replay"] = {"behaviours": len(behs), "depth": depth, "calls": n}
             # histories concentrated on the PMux and its inputs
-            mnum, mdepth = (150, 16) if q else (1500, 30)
+            mnum, mdepth = (150, 16) if q else (700, 30)
             mb, _ = tlc.run_sim("SimEdit.tla", "SimMux.cfg", ctx.work, num=mnum, depth=mdepth, seed=ctx.seed + 2)
             # delete-then-regrow histories (freed node indices re-used by inner nodes)
             rb, _ = tlc.run_sim("SimEdit.tla", "SimReuse.cfg", ctx.work, num=mnum // 2, depth=13, seed=ctx.seed + 3)
